@@ -185,6 +185,9 @@ type Options struct {
 	UseVM           bool
 	StackDepthLimit uint64 // 0 = the runtime's default
 	Seq             uint64 // distinguishes locations
+	// AtreeValidation enables runtime.Config.AtreeValidationEnabled (a debugging option that re-validates
+	// the whole container after every mutation: quadratic; off for the limit streams)
+	AtreeValidation bool
 	// Wrap, when set, wraps the runtime.Interface (e.g. to share a program cache between executions).
 	Wrap func(h *host.Host) runtime.Interface
 }
@@ -208,7 +211,7 @@ func Exec(w *host.World, p Prog, rec *Rec, opt Options) (out *Outcome) {
 			}
 		}()
 		rt := runtime.NewRuntime(runtime.Config{
-			AtreeValidationEnabled: true,
+			AtreeValidationEnabled: opt.AtreeValidation,
 			StackDepthLimit:        opt.StackDepthLimit,
 		})
 		var iface runtime.Interface = h
